@@ -193,3 +193,43 @@ Proof.
   intros c i0 Hc _ Hi d Hd H3 H1. vm_compute in Hc. inversion Hc; subst c. vm_compute in Hi. inversion Hi; subst i0.
   vm_compute in Hd. destruct Hd as [<-|[]]. vm_compute in H1. intuition discriminate.
 Qed.
+
+(** ** the precondition of the split theorem is needed, in the repaired source too *)
+Definition splitfix : fixes := {| fx_rename := true; fx_split := true; fx_nbr := true |}.
+Definition nt : str := s2l "zzz".
+Definition ops_overlap : list op :=
+  [AddNode na (P 0 0); AddNode nb (P 1 0); AddNode ne (P 1 1); AddNode nd (P 0 1);
+   AddCol na [na; nb; ne; nd] None (Some 0%Q); AddCol nt [nb; ne; nd] None (Some 0%Q);
+   AddConn na nt; IdentifyNbrs].
+Definition g_overlap : geo := Eval vm_compute in result (run (empty_geo 0 2 splitfix) ops_overlap).
+
+Lemma g_overlap_inv : Inv g_overlap.
+Proof.
+  constructor.
+  - apply (invS_reachable_init 0 2 splitfix ops_overlap); [|vm_compute; reflexivity].
+    cbn [all_pre ops_overlap preS]. repeat one_step.
+  - constructor.
+    + split.
+      * intros c Hc; vm_compute in Hc; destruct Hc as [<-|[<-|[]]]; vm_compute; repeat constructor; cbn; intuition discriminate.
+      * intros c Hc d. vm_compute in Hc. destruct Hc as [<-|[<-|[]]]; split.
+        -- intro H. vm_compute in H. destruct H as [<-|[]]. exists 7%positive. vm_compute. auto.
+        -- intros [k [Hk M]]. vm_compute in Hk. destruct Hk as [<-|[]]. vm_compute in M. vm_compute.
+           destruct M as [[_ <-]|[_ M]]; [auto|discriminate M].
+        -- intro H. vm_compute in H. destruct H as [<-|[]]. exists 7%positive. vm_compute. auto.
+        -- intros [k [Hk M]]. vm_compute in Hk. destruct Hk as [<-|[]]. vm_compute in M. vm_compute.
+           destruct M as [[M _]|[<- _]]; [discriminate M|auto].
+    + intros c Hc; vm_compute in Hc; destruct Hc as [<-|[<-|[]]]; vm_compute; reflexivity.
+    + split; vm_compute; reflexivity.
+Qed.
+
+(** the precondition of [split_column_inv] is needed: a neighbour sharing three corners with the
+    quadrilateral (it overlaps it) borders both halves; the one connection goes to the new column with
+    its old pair of nodes, which is not a side of the new column *)
+Theorem split_column_overlap_refuted :
+  exists g c n g', Inv g /\ fx_split (fx g) = true /\ split_column g c n = Ok g' /\ ~ S4 g'.
+Proof.
+  exists g_overlap, na, na, (result (split_column g_overlap na na)).
+  split; [exact g_overlap_inv|]. split; [reflexivity|]. split; [vm_compute; reflexivity|].
+  intro X. destruct (X 7%positive) as [a [b [E [_ [A _]]]]]; [vm_compute; auto|].
+  vm_compute in E. inversion E; subst a b. vm_compute in A. intuition discriminate.
+Qed.
